@@ -297,6 +297,12 @@ pub fn edge_points(es: &[f64], quick: bool) -> Vec<[f64; 2]> {
         for s in [1.0, -1.0] {
             let x = s * e;
             v.extend(neighbourhood([x, 0.0], &js));
+            // the smallest possible low words of either sign on the end point itself (a guard that goes through
+            // arithmetic may lose them to underflow)
+            for lo in [5e-324, 1e-323, 2f64.powi(-1070), 2f64.powi(-1022), 2f64.powi(-1021), 2f64.powi(-600)] {
+                v.push([x, lo]);
+                v.push([x, -lo]);
+            }
             for k in 1..=3u64 {
                 for h in [f64::from_bits(x.to_bits() + k), f64::from_bits(x.to_bits() - k)] {
                     v.extend(crate::grid::with_los(h, &[0, 1, 30], &[0, (1u64 << 52) - 1], &[]));
